@@ -37,6 +37,7 @@ SPEC = {
     "theorems": [
         "C14_derived_var", "C14_derived_var_steady", "C14_inherit",
         "C14_derived_set", "C14_derived_set_counts", "C14_subtract", "C14_counter",
+        "C14_derived_set_concurrent", "C14_counter_concurrent", "C14_sorted_set_concurrent",
         "C14_sorted_set", "C14_sorted_set_spec", "C14_sorted_set_members", "C14_sorted_set_absent_weight",
         "C14_eviction", "C14_eviction_unique", "C14_eviction_pre",
         "C14_waitgroup_sequential", "C14_waitgroup_counter", "C14_waitgroup_only_if", "C14_waitgroup",
@@ -62,7 +63,7 @@ SPEC = {
         "unsubscribe functions are called at most once (a second call of a DerivedSet's unsubscribe subtracts the mirror again: modelled as the code does it, excluded by the theorem's hypothesis)",
     ],
     "manifest": {
-        "text": "Unbounded Lean theorems: for every history of source writes (Add/Delete/Apply/Replace), InheritFrom and unsubscriptions a DerivedSet equals the union of its live sources via occurrence counts (C14_derived_set), SubtractReactive the source minus the others (C14_subtract), a Counter the number of monitored inputs satisfying the condition (C14_counter), a SortedSet is sorted by current weight with consistent indices and Heaviest/Lightest at the ends and ignores weights of absent elements (C14_sorted_set*), an EvictionState has triggered exactly the events of slots up to the last evicted slot (C14_eviction*), a WaitGroup triggers iff its last pending element is marked done (C14_waitgroup_sequential, and C14_waitgroup / C14_waitgroup_only_if / C14_waitgroup_counter for any pool of Add/Done goroutines under every schedule); for any number of writers with arbitrary scripts and the constructor running concurrently a DerivedVariable equals compute(current inputs) at quiescence and InheritFrom copies its source (C14_derived_var, C14_derived_var_steady, C14_inherit); no composition of the lock scripts of the C14 calls deadlocks (C14_deadlock_free, C14_scripts_ranked). Witness theorems for the four repaired defects. Tie on every run: line-by-line differential of ~3200 random call histories against the real ds/reactive code, concurrent stress to quiescence (writers + structural changes) whose final input/derived values are decided by the Lean driver with the predicates of the theorems, progress watchdogs (sequential and concurrent), the forced WaitGroup schedule through a verif hook, an independent Go oracle of every defining function, and 20 regenerated synchronisation skeletons as proof obligations.",
+        "text": "Unbounded Lean theorems: for every history of source writes (Add/Delete/Apply/Replace), InheritFrom and unsubscriptions a DerivedSet equals the union of its live sources via occurrence counts (C14_derived_set), SubtractReactive the source minus the others (C14_subtract), a Counter the number of monitored inputs satisfying the condition (C14_counter), a SortedSet is sorted by current weight with consistent indices and Heaviest/Lightest at the ends and ignores weights of absent elements (C14_sorted_set*), an EvictionState has triggered exactly the events of slots up to the last evicted slot (C14_eviction*), under asynchronous in-order delivery (every interleaving of writers on different sources, subscribers, unsubscribers, Add/Delete and weight updates) DerivedSet, Counter and SortedSet satisfy the same at quiescence (C14_derived_set_concurrent, C14_counter_concurrent, C14_sorted_set_concurrent), a WaitGroup triggers iff its last pending element is marked done (C14_waitgroup_sequential, and C14_waitgroup / C14_waitgroup_only_if / C14_waitgroup_counter for any pool of Add/Done goroutines under every schedule); for any number of writers with arbitrary scripts and the constructor running concurrently a DerivedVariable equals compute(current inputs) at quiescence and InheritFrom copies its source (C14_derived_var, C14_derived_var_steady, C14_inherit); no composition of the lock scripts of the C14 calls deadlocks (C14_deadlock_free, C14_scripts_ranked). Witness theorems for the four repaired defects. Tie on every run: line-by-line differential of ~3200 random call histories against the real ds/reactive code, concurrent stress to quiescence (writers + structural changes) whose final input/derived values are decided by the Lean driver with the predicates of the theorems, progress watchdogs (sequential and concurrent), the forced WaitGroup schedule through a verif hook, an independent Go oracle of every defining function, and 20 regenerated synchronisation skeletons as proof obligations.",
         "note": "Trusted: Lean kernel; hand-written models (Hive/Model/Derived*.lean) tied by differential execution, quiescence predicates and regenerated skeletons; lock scripts hand-written (ranks proved, scripts tied only by skeletons + watchdog); derivation graph assumed acyclic, user callbacks opaque; compute functions of inputs only; unsubscribe functions called at most once.",
         "technique": "Lean 4 invariant proofs by induction over call histories and over reachable configurations of interleaving protocol models (arbitrary thread pools) + lock-rank theorem + differential / quiescence / skeleton correspondence",
     },
